@@ -24,6 +24,7 @@ type C08Cfg struct {
 	T        int       `json:"t"`
 	Late     int       `json:"late"`
 	MsgLen   int       `json:"msgLen"`
+	NonFIFO  bool      `json:"nonFIFO,omitempty"` // links may reorder their own protocol messages (a reconnect between two sends, a dispatcher per message)
 	// Part, when set: the nodes that generate the key, a subset of the membership Deploy.IDs (sparse identifiers)
 	Part []uint16 `json:"part,omitempty"`
 }
@@ -52,6 +53,7 @@ func genC08(seed uint64, tier string) C08Cfg {
 	if rd := prng.Derive(seed, "real-init-delay"); rd.Bool(0.2) {
 		c.Deploy.RealInitDelayMs = rd.Range(1, 40)
 	}
+	c.NonFIFO = prng.Derive(seed, "non-fifo").Bool(0.25)
 	return c
 }
 
@@ -181,7 +183,7 @@ func runC08(t *testing.T, spec RunSpec) *RunResult {
 	} else {
 		ids = fmt.Sprintf("ids=sparse members=n+%d", len(cfg.Deploy.IDs)-cfg.N)
 	}
-	res.ConfigKey = fmt.Sprintf("ps n=%d t=%d L=%d %s %s", cfg.N, cfg.T, cfg.MsgLen, mode, ids)
+	res.ConfigKey = fmt.Sprintf("ps n=%d t=%d L=%d %s %s nonfifo=%v", cfg.N, cfg.T, cfg.MsgLen, mode, ids, cfg.NonFIFO)
 	restore := seedCryptoRand(spec.Seed)
 	defer restore()
 	shares := map[uint16][]byte{}
@@ -190,6 +192,7 @@ func runC08(t *testing.T, spec RunSpec) *RunResult {
 	bubble(t, func() {
 		w := netsim.NewWorld(spec.Seed)
 		w.Serial = cfg.Serial
+		w.NonFIFO = cfg.NonFIFO
 		trace(spec, res.Cfg, w)
 		d := NewDeployment(w, cfg.Deploy)
 		d.Build()
